@@ -130,8 +130,12 @@ static void pushBorders(Out &o) {
 
 // ------------------------------------------------------------------------------------ routing scenes
 struct R4 { double x0, y0, x1, y1; };
-struct Cn { double sx, sy, tx, ty; unsigned sdir = 15, tdir = 15; int spin = -1, tpin = -1; };   // dirs = Avoid::ConnDirFlags; pin = shape index (end is a pin at (x,y) on that shape's side) or -1
+struct Cn { double sx, sy, tx, ty; unsigned sdir = 15, tdir = 15; int spin = -1, tpin = -1; unsigned scls = 0; };   // scls > 0: the source is ConnEnd(shape spin, pin class scls) — one of the scene's PinDefs   // dirs = Avoid::ConnDirFlags; pin = shape index (end is a pin at (x,y) on that shape's side) or -1
+// a connection pin of a multi-pin class: (px, py) = its place on / in the shape BEFORE the inside offset is applied;
+// prop: handed to the library as proportional offsets, else as absolute offsets from the shape's min corner
+struct PinDef { int shape; unsigned cls; double px, py; bool prop; double inside; unsigned dirs; bool excl; double cost; };
 struct RScene {
+    std::vector<PinDef> pins;
     std::vector<R4> rects;
     std::vector<Cn> conns;
     bool orth = false;
@@ -223,6 +227,11 @@ static RScene frameScene(const RScene &s, int sym, double tx, double ty) {
         applySym(sym, s.conns[i].tx, s.conns[i].ty, t.conns[i].tx, t.conns[i].ty);
         t.conns[i].sx += tx; t.conns[i].tx += tx; t.conns[i].sy += ty; t.conns[i].ty += ty;
     }
+    for (size_t i = 0; i < s.pins.size(); ++i) {
+        applySym(sym, s.pins[i].px, s.pins[i].py, t.pins[i].px, t.pins[i].py);
+        t.pins[i].px += tx; t.pins[i].py += ty;
+        t.pins[i].dirs = symDirs(sym, s.pins[i].dirs);
+    }
     double dx, dy; applySym(sym, s.mdx, s.mdy, dx, dy); t.mdx = dx; t.mdy = dy;
     return t;
 }
@@ -236,6 +245,9 @@ static void printScene(const RScene &s) {
     for (size_t i = 0; i < s.conns.size(); ++i)
         if (s.conns[i].sdir != 15 || s.conns[i].tdir != 15 || s.conns[i].spin >= 0 || s.conns[i].tpin >= 0)
             printf("cdir %zu %u %u %d %d\n", i, s.conns[i].sdir, s.conns[i].tdir, s.conns[i].spin, s.conns[i].tpin);
+    for (const PinDef &q : s.pins)
+        printf("pin %d %u %s %s %d %s %u %d %s\n", q.shape, q.cls, H(q.px).c_str(), H(q.py).c_str(), (int) q.prop, H(q.inside).c_str(), q.dirs, (int) q.excl, H(q.cost).c_str());
+    for (size_t i = 0; i < s.conns.size(); ++i) if (s.conns[i].scls > 0) printf("ccls %zu %d %u\n", i, s.conns[i].spin, s.conns[i].scls);
     if (s.moveIdx >= 0) printf("move %d %s %s\n", s.moveIdx, H(s.mdx).c_str(), H(s.mdy).c_str());
     for (int i = 0; i < 9; ++i) if (s.prm[i] >= 0) printf("param %d %s\n", i, H(s.prm[i]).c_str());
     for (int i = 0; i < 7; ++i) if (s.opt[i] >= 0) printf("opt %d %d\n", i, s.opt[i]);
@@ -288,8 +300,16 @@ static Out routeScene(const RScene &s, Avoid::Router **keepAlive = nullptr) {
         Avoid::Rectangle poly(Avoid::Point(s.rects[i].x0, s.rects[i].y0), Avoid::Point(s.rects[i].x1, s.rects[i].y1));
         shapes.push_back(new Avoid::ShapeRef(router, poly));
     }
+    for (const PinDef &q : s.pins) {
+        const R4 &b = s.rects[q.shape];
+        // offsets of the pin's place relative to the shape's box in THIS frame (exact: dyadic fractions of integer sides)
+        double xo = q.prop ? (q.px - b.x0) / (b.x1 - b.x0) : q.px - b.x0, yo = q.prop ? (q.py - b.y0) / (b.y1 - b.y0) : q.py - b.y0;
+        Avoid::ShapeConnectionPin *pin = new Avoid::ShapeConnectionPin(shapes[q.shape], q.cls, xo, yo, q.prop, q.inside, (Avoid::ConnDirFlags) q.dirs);
+        pin->setExclusive(q.excl);
+        if (q.cost > 0) pin->setConnectionCost(q.cost);
+    }
     std::vector<Avoid::ConnRef *> conns;
-    unsigned pinClass = 1;
+    unsigned pinClass = 100;
     auto mkEnd = [&](double x, double y, unsigned dirs, int pin) -> Avoid::ConnEnd {
         if (pin < 0 || pin >= (int) shapes.size()) return Avoid::ConnEnd(Avoid::Point(x, y), (Avoid::ConnDirFlags) dirs);
         // a pin at (x, y) on the boundary of shape `pin`: proportional offsets (0, 1/2 or 1: exact), no inside offset
@@ -300,7 +320,8 @@ static Out routeScene(const RScene &s, Avoid::Router **keepAlive = nullptr) {
         return Avoid::ConnEnd(shapes[pin], cls);
     };
     for (size_t i = 0; i < s.conns.size(); ++i) {
-        Avoid::ConnEnd se = mkEnd(s.conns[i].sx, s.conns[i].sy, s.conns[i].sdir, s.conns[i].spin);
+        Avoid::ConnEnd se = s.conns[i].scls > 0 ? Avoid::ConnEnd(shapes[s.conns[i].spin], s.conns[i].scls)
+                                                : mkEnd(s.conns[i].sx, s.conns[i].sy, s.conns[i].sdir, s.conns[i].spin);
         Avoid::ConnEnd te = mkEnd(s.conns[i].tx, s.conns[i].ty, s.conns[i].tdir, s.conns[i].tpin);
         conns.push_back(new Avoid::ConnRef(router, se, te));
     }
@@ -667,7 +688,7 @@ static bool insideAny(const RScene &s, double x, double y, double margin) {
     return false;
 }
 
-static RScene genParamScene(vh::Rng &r, bool orth, int maxConns, bool crossStageOk) {
+static RScene genParamScene(vh::Rng &r, bool orth, int maxConns, bool crossStageOk, bool withPins = false) {
     RScene s; s.orth = orth;
     // ---- parameters
     static const double segs[] = {1, 2, 3, 10, 50, 0.5};
@@ -675,6 +696,9 @@ static RScene genParamScene(vh::Rng &r, bool orth, int maxConns, bool crossStage
     if (!orth && r.coin(1, 6)) s.pen = 0;
     static const double bufs[] = {0, 0, 0.5, 1, 2, 4};
     s.buf = bufs[r.range(0, 5)];
+    // scenes with a pin class: buffer > 0 (with buffer 0 another connector may run along the shape edge THROUGH a pin, which
+    // libavoid allows in some orientations only — reported, not generated)
+    if (withPins && s.buf == 0) s.buf = r.coin() ? 0.5 : 1;
     s.prm[Avoid::segmentPenalty] = s.pen;
     s.prm[Avoid::shapeBufferDistance] = s.buf;
     static const double angs[] = {0.5, 4, 50};
@@ -757,9 +781,58 @@ static RScene genParamScene(vh::Rng &r, bool orth, int maxConns, bool crossStage
         if (xAxis) return r.coin() ? q.x0 - b : q.x1 + b;
         return r.coin() ? q.y0 - b : q.y1 + b;
     };
+    // ---- a shape with a multi-pin class (half of the scenes): 2-4 pins on different sides (side midpoints, quarter points,
+    // corners), each looking out of its side (sometimes an extra direction), given to the library as ATTACH_POS_* / proportional
+    // or absolute offsets, with or without an inside offset, exclusive or shared, sometimes with a connection cost
+    int pinShape = -1; size_t nPins = 0; bool pinsExcl = false;
+    if (withPins) {
+        pinShape = (int) r.range(0, (long) s.rects.size() - 1);
+        const R4 &b = s.rects[pinShape];
+        double w = b.x1 - b.x0, h = b.y1 - b.y0;
+        pinsExcl = r.coin(1, 3);
+        std::vector<int> sides; for (int i = 0; i < 4; ++i) sides.push_back(i);
+        r.shuffle(sides);
+        nPins = (size_t) r.range(2, 4);
+        bool prop = r.coin(2, 3);
+        static const double fr[] = {0.5, 0.5, 0.25, 0.75, 0, 1};
+        for (size_t i = 0; i < nPins; ++i) {
+            int side = sides[i];                           // 0 top (min y, Up=1), 1 bottom (Down=2), 2 left (Left=4), 3 right (Right=8)
+            double f = fr[r.range(0, 5)];
+            PinDef q; q.shape = pinShape; q.cls = 1; q.prop = prop; q.excl = pinsExcl;
+            if (side == 0) { q.px = b.x0 + f * w; q.py = b.y0; q.dirs = 1; }
+            if (side == 1) { q.px = b.x0 + f * w; q.py = b.y1; q.dirs = 2; }
+            if (side == 2) { q.px = b.x0; q.py = b.y0 + f * h; q.dirs = 4; }
+            if (side == 3) { q.px = b.x1; q.py = b.y0 + f * h; q.dirs = 8; }
+            if (f == 0 || f == 1) q.dirs |= (side < 2) ? (f == 0 ? 4u : 8u) : (f == 0 ? 1u : 2u);     // a corner looks out of both sides
+            if (r.coin(1, 8)) q.dirs = 15;
+            q.inside = (w >= 4 && h >= 4 && r.coin(1, 5)) ? 1.0 : 0.0;
+            q.cost = r.coin(1, 6) ? (double) r.range(1, 8) : 0.0;
+            bool dup = false;                              // two pins at one place differ at most in their cost, which the pin set's order ignores
+            for (const PinDef &o : s.pins) if (o.px == q.px && o.py == q.py) dup = true;
+            if (dup) continue;
+            s.pins.push_back(q);
+        }
+        nPins = s.pins.size();
+        static const double pdp[] = {100, 100, 16, 4};
+        if (r.coin(4, 5)) s.prm[Avoid::portDirectionPenalty] = pdp[r.range(0, 3)];
+    }
     int nc = (int) r.range(1, maxConns);
+    size_t pinned = 0;
     for (int i = 0; i < nc; ++i) {
         Cn c; bool ok = false;
+        // an EXCLUSIVE class serves one connector per scene: with several, which connector gets which pin is decided greedily
+        // with ties between pin edges broken by EdgeInf addresses (CmpVisEdgeRotation), so per-connector costs are not
+        // reproducible even between two identical runs (reported)
+        if (pinShape >= 0 && (i == 0 || r.coin()) && (!pinsExcl || pinned < 1) && nPins > 0) {
+            // source = the pin class; far end anywhere free (mostly diagonal from the shape), sometimes in line with the shape's centre
+            const R4 &b = s.rects[pinShape];
+            c.spin = pinShape; c.scls = 1; c.sx = (b.x0 + b.x1) / 2; c.sy = (b.y0 + b.y1) / 2;
+            if (freePt(c.tx, c.ty)) {
+                if (r.coin(1, 5)) { if (r.coin()) c.tx = c.sx; else c.ty = c.sy; if (insideAny(s, c.tx, c.ty, m)) { c.tx = -7; c.ty = -7; } }
+                ++pinned; s.conns.push_back(c); continue;
+            }
+            c = Cn();
+        }
         for (int tries = 0; tries < 60 && !ok; ++tries) {
             int mode = (int) r.range(0, 7);
             if (mode <= 2) {                               // across an obstacle: the two ends on opposite sides of a rectangle, aligned or nearly
@@ -804,11 +877,26 @@ static RScene genParamScene(vh::Rng &r, bool orth, int maxConns, bool crossStage
     return s;
 }
 
-static void emitSymmetryRunsWithPaths(const RScene &s) {
+// `shifted`: every symmetry is followed by its own translation (integer offsets up to +-48, printed as `frame sym tx ty`):
+// the 7 images are then not related to the original by a map that fixes the origin
+static void emitSymmetryRunsWithPaths(const RScene &s, vh::Rng *shiftRng = nullptr) {
+    // frame 8 (only with `shifted`): the identity followed by a translation by a multiple of 2^-10 of the order of the scene size or larger
+    double tx[9] = {0}, ty[9] = {0};
+    int nFrames = shiftRng ? 9 : 8;
+    if (shiftRng) for (int sym = 1; sym < 9; ++sym) {
+        tx[sym] = (double) shiftRng->range(-48, 48); ty[sym] = (double) shiftRng->range(-48, 48);
+        if (sym == 8) {
+            long big = shiftRng->coin() ? 1L << 16 : 1L << 19;
+            tx[sym] = std::ldexp((double) shiftRng->range(-big, big), -10); ty[sym] = std::ldexp((double) shiftRng->range(-big, big), -10);
+            if (shiftRng->coin(1, 4)) ty[sym] = 0;
+        }
+        printf("frame %d %s %s\n", sym, H(tx[sym]).c_str(), H(ty[sym]).c_str());
+    }
+    fflush(stdout);
     Out a = routeScene(s);
     printOut("A", a); fflush(stdout);
-    for (int sym = 1; sym < 8; ++sym) {
-        Out b = routeScene(frameScene(s, sym, 0, 0));
+    for (int sym = 1; sym < nFrames; ++sym) {
+        Out b = routeScene(frameScene(s, sym == 8 ? 0 : sym, tx[sym], ty[sym]));
         for (size_t i = 0; i < b.size(); ++i) {
             if (b[i].first.compare(0, 5, "route") != 0 && b[i].first.compare(0, 4, "path") != 0) continue;
             printf("S %d %s", sym, b[i].first.c_str());
@@ -819,6 +907,14 @@ static void emitSymmetryRunsWithPaths(const RScene &s) {
     }
 }
 
+// where the scene sits relative to the ORIGIN: as generated (origin at a corner), origin inside the scene, or far away
+static RScene placeScene(vh::Rng &r, const RScene &s) {
+    int k = (int) r.range(0, 3);
+    if (k == 0) return s;
+    if (k == 1) return frameScene(s, 0, -(double) r.range(5, 30), -(double) r.range(5, 30));
+    return frameScene(s, 0, (double) r.range(-300, 300), (double) r.range(-300, 300));
+}
+
 // route-symmetry-params: the 8 images of a scene; the driver compares the COST of the A* vertex paths with the Lean cost
 // model (length + segmentPenalty*bends + reverseDirectionPenalty*reversing edges; Props/C20 proves it frame-invariant).
 // Scenes with >= 2 connectors in which the crossing-penalty rerouting stage can act (crossingPenalty / fixedSharedPathPenalty
@@ -827,7 +923,9 @@ static void emitSymmetryRunsWithPaths(const RScene &s) {
 static void caseRouteSymmetryParams(long k, vh::Rng &r) {
     bool orth = r.coin(3, 4);
     bool crossStage = r.coin(1, 5);
-    RScene s = genParamScene(r, orth, crossStage ? 3 : 2, crossStage);
+    bool withPins = r.coin();
+    RScene s = genParamScene(r, orth, crossStage ? 3 : 2, crossStage, withPins);
+    if (withPins) s = placeScene(r, s);
     bool x = s.conns.size() >= 2 && (s.prm[Avoid::crossingPenalty] > 0 || s.prm[Avoid::fixedSharedPathPenalty] > 0 ||
                                      s.prm[Avoid::reverseDirectionPenalty] > 0);
     // reverseDirectionPenalty is charged per visibility-graph EDGE, and which vertices the graph has on a line through
@@ -837,7 +935,7 @@ static void caseRouteSymmetryParams(long k, vh::Rng &r) {
     s.capture = true;
     printScene(s);
     fflush(stdout);
-    emitSymmetryRunsWithPaths(s);
+    emitSymmetryRunsWithPaths(s, withPins ? &r : nullptr);
     vh::endCase();
 }
 
@@ -847,7 +945,10 @@ static void caseRouteTranslateParams(long k, vh::Rng &r) {
     bool orth = r.coin(2, 3);
     // same tags as the plain translation classes (the driver recognises the wider class by its `param` lines)
     vh::beginCase(k, orth ? "route-translate-orth" : "route-translate");
-    RScene s = genParamScene(r, orth, 4, true);
+    // (pin classes: pure translations are frame 8 of route-symmetry-params — among equal-cost routes the search breaks ties
+    //  between pin edges by comparing EdgeInf ADDRESSES, CmpVisEdgeRotation, so exact translation of the route cannot be demanded)
+    bool withPins = false;
+    RScene s = genParamScene(r, orth, 4, r.coin(1, 3), withPins);     // crossing-penalty stage in a third of the scenes (its rerouting order is address dependent once in ~15000 scenes: reported)
     if (r.coin(1, 3)) {
         s.moveIdx = (int) r.range(0, (long) s.rects.size() - 1);
         s.mdx = (double) r.range(-2, 2) * 0.5; s.mdy = (double) r.range(-2, 2) * 0.5;
